@@ -1,12 +1,18 @@
 """C03 — a rejected or failed trial leaves the system exactly as it was (DESIGN §6 C03)."""
 from __future__ import annotations
 
+import warnings
+
 import common
 import machine
 
 ID = "C03"
-LEAN_MODULES = ["QProps.C03", "QProps.C03x", "QProps.C05h", "QProps.C03g", "QProps.C05x", "QProps.C03e"]
+LEAN_MODULES = ["QProps.C03", "QProps.C03x", "QProps.C05h", "QProps.C03g", "QProps.C05x", "QProps.C03e", "QProps.C03n"]
 THEOREMS = [
+    "ArrN.vetoed_insertion_keeps_arrays",
+    "ArrN.rejected_trial_restores_arrays",
+    "ArrN.accepted_trial_keeps_new_arrays",
+    "ArrN.pinned_rejected_trial_keeps_foreign_array",
     "MM.compExch_not_accepted_atoms",
     "MM.gc_mixed_history_x",
     "MM.fail_restores",
@@ -455,5 +461,171 @@ class HamiltonianExchange(common.Suite):
         return f"bias={case['bias']}:mol={case['molecule']}"
 
 
+class ArrayNames(common.Suite):
+    """which per-atom arrays the system has after trials that insert species carrying arrays of their own (initial_magmoms,
+    initial_charges, tags, momenta, a custom array): single and composite exchange trials with pre-selected species on the real
+    grand-canonical driver, placements vetoed or not, accepted or rejected; the names in dictionary order after every trial
+    against `QModel/ArrayNames.lean`, and the oracle: a trial that is not accepted leaves the names as they were"""
+
+    name = "array-names"
+    EXTRA = ["initial_magmoms", "initial_charges", "tags", "momenta", "spin_up"]
+
+    def cases(self, rng, tier):
+        n = 150 if tier == "quick" else 2000
+        for _ in range(n):
+            sys_extra = [x for x in self.EXTRA if rng.random() < 0.25]
+            trials = []
+            for _ in range(rng.randint(1, 6)):
+                members = []
+                for _ in range(1 if rng.random() < 0.6 else 2):
+                    members.append({"extra": [x for x in self.EXTRA if rng.random() < 0.35], "placed": rng.random() < 0.75,
+                                    "size": rng.choice([1, 1, 2])})
+                trials.append({"members": members, "verdict": rng.random() < 0.5})
+            yield {"sys_extra": sys_extra, "natoms": rng.randint(1, 3), "trials": trials}
+
+    @staticmethod
+    def _with_arrays(atoms, names):
+        import numpy as np
+
+        for x in names:
+            if x == "tags":
+                atoms.set_tags([3] * len(atoms))
+            elif x == "momenta":
+                atoms.set_momenta(np.full((len(atoms), 3), 0.5))
+            elif x == "initial_magmoms":
+                atoms.set_initial_magnetic_moments([1.0] * len(atoms))
+            elif x == "initial_charges":
+                atoms.set_initial_charges([0.25] * len(atoms))
+            else:
+                atoms.set_array(x, np.arange(len(atoms), dtype=float) + 1.0)
+        return atoms
+
+    def real(self, case):
+        import numpy as np
+        from ase import Atoms
+        from ase.calculators.calculator import Calculator, all_changes
+        from quansino.mc.gcmc import GrandCanonical
+        from quansino.moves.exchange import ExchangeMove
+
+        class Zero(Calculator):
+            implemented_properties = ("energy", "forces")
+
+            def calculate(self, atoms=None, properties=("energy",), system_changes=all_changes):
+                super().calculate(atoms, properties, system_changes)
+                self.results = {"energy": 0.0, "forces": np.zeros((len(atoms), 3))}
+
+        class Crit:
+            verdict = True
+
+            def evaluate(self, context):
+                context.atoms.get_potential_energy()
+                return self.verdict
+
+            def to_dict(self):
+                return {"name": "Crit"}
+
+        n = case["natoms"]
+        atoms = self._with_arrays(Atoms("Cu" * n, positions=[[1.0 + 2 * i, 1.0, 1.0] for i in range(n)], cell=[12, 12, 12], pbc=True),
+                                  case["sys_extra"])
+        atoms.calc = Zero()
+        with warnings.catch_warnings():
+            warnings.simplefilter("ignore")
+            mc = GrandCanonical(atoms, exchange_atoms=Atoms("H"), temperature=300.0, chemical_potential=0.0,
+                                number_of_exchange_particles=n, max_cycles=1, seed=7)
+            for k in list(mc.moves):
+                del mc.moves[k]
+            m1, m2 = ExchangeMove(np.arange(n)), ExchangeMove(np.arange(n))
+            crit = Crit()
+            mc.add_move(m1, criteria=crit, name="one")
+            from quansino.moves.exchange import CompositeExchangeMove
+            comp = CompositeExchangeMove([m1, m2])
+            comp.bias_towards_insert = 1.0
+            mc.add_move(comp, criteria=crit, name="two")
+            m1.bias_towards_insert = m2.bias_towards_insert = 1.0
+            mc.validate_simulation()
+            names0 = list(atoms.arrays)
+            out = [names0]
+            outcomes = []
+            species = []
+            self._last = None
+            for tr in case["trials"]:
+                mem = tr["members"]
+                sp_names = []
+                for mv, m in zip((m1, m2), mem):
+                    sp = self._with_arrays(Atoms("H" * m["size"], positions=[[0.0, 0.0, 0.7 * j] for j in range(m["size"])]), m["extra"])
+                    sp_names.append(list(sp.arrays))
+                    mv.to_add_atoms = sp
+                    mv.max_attempts = 1
+                    mv.check_move = (lambda v: (lambda *_a, **_k: v))(m["placed"])
+                crit.verdict = tr["verdict"]
+                entry = "one" if len(mem) == 1 else "two"
+                mc.yield_moves = (lambda e: (lambda: iter([e])))(entry)
+                for _ in mc.step():
+                    pass
+                outcomes.append({True: "T", False: "F", None: "N"}[mc.move_history[-1][1]])
+                species.append(sp_names)
+                m1.to_add_atoms = m2.to_add_atoms = None
+                out.append(list(atoms.arrays))
+        self._last = {"names0": names0, "species": species}
+        return {"names": out, "outcomes": outcomes}
+
+    def model_lines(self, case):
+        # called right after `real(case)`: names and their order are taken from the real objects
+        last = getattr(self, "_last", None)
+        if not last:
+            return []
+        ops, marks = [], []
+        for tr, sp_names in zip(case["trials"], last["species"]):
+            placed_any = False
+            for m, names in zip(tr["members"], sp_names):
+                ops.append(f"I:{','.join(names)}:{int(m['placed'])}")
+                placed_any = placed_any or m["placed"]
+            if placed_any:
+                ops.append("S" if tr["verdict"] else "R")
+            marks.append(len(ops) - 1)
+        if not hasattr(self, "_store"):
+            self._store = {}
+        self._store[common.dumps(case)] = {"names0": last["names0"], "marks": marks}
+        return ["arrn " + (",".join(last["names0"]) or "-") + " " + " ".join(ops)]
+
+    def model_obs(self, case, outs):
+        w = outs[0].split()
+        if w[0] == "bad-op":
+            return {"names": "bad-op"}
+        per_op = [[] if t == "-" else t.split(",") for t in w[:-1]]
+        st = self._store[common.dumps(case)]
+        return {"names": [st["names0"], *[per_op[k] for k in st["marks"]]], "saved": w[-1]}
+
+    def compare(self, case, real_obs, model_obs):
+        if "exception" in real_obs:
+            return []
+        d = []
+        if real_obs["names"] != model_obs["names"]:
+            d.append(f"names: real={real_obs['names']} model={model_obs['names']}")
+        if model_obs.get("saved") != "saved=none":
+            d.append(f"the model still remembers names after the last trial: {model_obs.get('saved')}")
+        return d
+
+    def oracle(self, case, obs):
+        if "exception" in obs:
+            return [("array-names:unexpected-exception:" + obs["exception"], obs.get("message", "") + obs.get("trace", "")[-400:])]
+        out = []
+        for k, (o, before, after) in enumerate(zip(obs["outcomes"], obs["names"], obs["names"][1:])):
+            if o != "T" and before != after:
+                out.append((f"restore:array-names:{'rejected' if o == 'F' else 'failed'}",
+                            f"trial {k}: arrays {before} -> {after} although the trial was not accepted"))
+            if o == "T":
+                want = set(before)
+                for m in case["trials"][k]["members"]:
+                    if m["placed"]:
+                        want |= set(m["extra"])
+                if set(after) != want:
+                    out.append(("array-names:accepted", f"trial {k}: arrays {after}, expected the names {sorted(want)}"))
+        return out
+
+    def classify(self, case, obs):
+        return "".join(obs.get("outcomes", ["?"]))[:4]
+
+
 def suites(tier):
-    return [Histories(), CollectiveConstraintHistories(), RunBoundaries(), FractionalCellHistories(), HamiltonianExchange()]
+    return [Histories(), CollectiveConstraintHistories(), RunBoundaries(), FractionalCellHistories(), HamiltonianExchange(), ArrayNames()]
